@@ -473,6 +473,7 @@ pub mod vtarget {
         Data,
         Note,
         Mode,
+        Base,
     }
 
     #[contracterror]
@@ -504,7 +505,7 @@ pub mod vtarget {
         fn version(env: &Env) -> String {
             let n: u32 = env.storage().instance().get(&VKey::Version).unwrap_or(0);
             if n == 0 {
-                String::from_str(env, "1.0.0")
+                env.storage().instance().get(&VKey::Base).unwrap_or(String::from_str(env, "1.0.0"))
             } else {
                 String::from_str(env, &std::format!("3.1.{}", 3 + n))
             }
@@ -541,6 +542,10 @@ pub mod vtarget {
         /// changes it; 2: both do (the version after `upgrade` is not the final one).
         pub fn set_mode(env: Env, mode: u32) {
             env.storage().instance().set(&VKey::Mode, &mode);
+        }
+        /// The version reported before any upgrade (default "1.0.0").
+        pub fn set_base(env: Env, v: String) {
+            env.storage().instance().set(&VKey::Base, &v);
         }
         pub fn mode(env: Env) -> u32 {
             env.storage().instance().get(&VKey::Mode).unwrap_or(0)
